@@ -27,11 +27,11 @@ import (
 )
 
 type c14Cell struct {
-	Op    string `json:"op"`    // kvset kvdel vadd vdel vmeta vbatch glink gunlink vcreate vdrop
-	Admin string `json:"admin"` // snapshot | rewrite
-	PJ    int    `json:"pj"`    // admin position at which the write is started and runs up to its park point
+	Op    string `json:"op"`             // kvset kvdel vadd vdel vmeta vbatch glink gunlink vcreate vdrop
+	Admin string `json:"admin"`          // snapshot | rewrite
+	PJ    int    `json:"pj"`             // admin position at which the write is started and runs up to its park point
 	Park  string `json:"park,omitempty"` // "" = parked right after journaling; "mid" = parked between the vector insert/delete and the metadata update (vadd, vbatch, vdel)
-	PD    int    `json:"pd"`    // admin position at which the parked write is released (apply + return)
+	PD    int    `json:"pd"`             // admin position at which the parked write is released (apply + return)
 }
 
 var c14AdminPoints = map[string][]string{
